@@ -692,3 +692,61 @@ def rule_det6(ctx: Ctx) -> RuleResult:
     if n < 2:
         raise AnalysisError(f"DET-6: only {n} returns in the string branch")
     return rr
+
+
+def rule_det7(ctx: Ctx) -> RuleResult:
+    """A parser that rejects the string only disqualifies its own type: the detector goes on with the next registered type."""
+    rr = RuleResult("DET-7", "a rejecting parser never ends the search through the registered types", floor=1)
+    f = ctx.prog.func(*GEN)
+    loops = [n for n in walk_no_nested(f.node) if isinstance(n, ast.For) and "str_types_registry" in norm(n.iter)]
+    if len(loops) != 1:
+        raise AnalysisError(f"DET-7: expected one loop over the pseudo-type registry, found {len(loops)}")
+    lp = loops[0]
+    handlers = [h for n in ast.walk(lp) if isinstance(n, ast.Try) for h in n.handlers]
+    if not handlers:
+        raise AnalysisError("DET-7: the detection loop has no exception handler")
+    for h in handlers:
+        rr.instances += 1
+        leaves = [x for s_ in h.body for x in ast.walk(s_) if isinstance(x, (ast.Break, ast.Return, ast.Raise))]
+        rr.ob(f.relpath, f.qualname, f"except {norm(h.type) if h.type is not None else ''}: {norm(h.body[-1])[:30]}",
+              "whatever exception marks 'this type does not accept the string', the types registered after it are still tried "
+              "(registration order decides, not which parser happened to raise what)", VIOLATED if leaves else DISCHARGED,
+              f"`{norm(leaves[0])[:30]}` leaves the loop from the handler: the types registered later are never asked" if leaves
+              else "continues with the next type", h.lineno)
+    return rr
+
+
+def rule_regdup1(ctx: Ctx) -> RuleResult:
+    """REGDUP-1: registering a class that is already registered does not list it twice (remove() takes out one occurrence)."""
+    rr = RuleResult("REGDUP-1", "a pseudo-type is listed once however often it is registered", floor=1)
+    prog = ctx.prog
+    c = prog.cls(*SSR)
+    add = prog.lookup_method(c, "add")
+    rm = prog.lookup_method(c, "remove")
+    if not add or not rm:
+        raise AnalysisError("REGDUP-1: add / remove vanished")
+    rr.instances += 1
+    st = ("after remove(cls) the class is not detected any more, also when it was registered twice (register_datetime_classes "
+          "called twice on one registry): either add() does not append a class that is already listed, or remove() takes out every "
+          "occurrence")
+    funcs = [add[0]] + [g for g in prog.all_funcs() if g.parent is add[0]]
+    apps = [(g, n) for g in funcs for n in walk_no_nested(g.node) if isinstance(n, ast.Call) and isinstance(n.func, ast.Attribute)
+            and n.func.attr in ("append", "insert") and norm(n.func.value) == "self.types"]
+    guarded = bool(apps) and all(any(isinstance(p_, ast.If) and "self.types" in norm(p_.test) and ("not in" in norm(p_.test) or " in " in norm(p_.test))
+                                     for p_ in _anc(g.module, n)) for g, n in apps)
+    rm_all = any(isinstance(n, ast.While) and "self.types" in norm(n.test) for n in walk_no_nested(rm[0].node)) or any(
+        isinstance(n, ast.Assign) and norm(n.targets[0]) == "self.types" and isinstance(n.value, (ast.ListComp, ast.Call))
+        for n in walk_no_nested(rm[0].node))
+    ok = guarded or rm_all
+    rr.ob(add[0].relpath, add[0].qualname, norm(apps[0][1]) if apps else "self.types.append(cls)", st, DISCHARGED if ok else VIOLATED,
+          ("add() skips a class that is already listed" if guarded else "remove() takes out every occurrence") if ok else
+          "add() appends unconditionally and remove() calls list.remove once: a class registered twice survives its removal",
+          add[0].node.lineno)
+    return rr
+
+
+def _anc(mod, n):
+    p = mod.parents.get(n)
+    while p is not None:
+        yield p
+        p = mod.parents.get(p)
